@@ -16,7 +16,9 @@ EPS = 1 << (S - 26)         # __eps = sqrt(finfo(float64).eps) = 2^-26, scaled
 RULE = ("sparse n x n problems, n from a skewed distribution 1..12 (thorough ..40): a hidden permutation (so a perfect "
         "matching exists and every row/column is mentioned) plus extras: dense, banded, Bernoulli p in {.1,.3,.6}, "
         "one-candidate rows, rows with pairwise different candidate sets, star/ladder; costs from {0..2} (ties), {0..9}, "
-        "{0..10^6}, dyadic k/2^8, fine grid {0..2}+k*2^-30 (exercises the eps band, F6); augmenting_row_reductions 0..3; "
+        "{0..10^6}, dyadic k/2^8, fine grid {0..2}+k*2^-30 (exercises the eps band, F6); forced expensive pairs: unique / forced "
+        "perfect matchings through pairs of cost B in 1e1..1e9 against {1,2}, displacement chains, k = 0 emphasised, run in a "
+        "forked child so that a crash or hang of the implementation is an outcome of the case (F20); augmenting_row_reductions 0..3; "
         "triple order shuffled. All data dyadic so float arithmetic is exact and (x,y,u,v) is compared bit for bit with "
         "the (AsIs, 2^-26) Gallina model. Tracker: random pairs of label images and identical frames with pairwise "
         "distinct (centroid, area). non-trivial = n >= 2 and some row has >= 2 candidates (tracker: >= 2 objects in a frame); "
@@ -838,7 +840,7 @@ def check(ctx, cases, outs):
     if fl:
         _attribute_batch(ctx, [cases[k] for k in fl], [outs[k] for k in fl])
     # the hypotheses that the Coq development leaves to the per-instance check, evaluated on every case:
-    # (H-total) the repaired model (Fixed, eps 0 at :202) returns - C01_lapjv_fixed_total is NOT proved;
+    # (H-total) the repaired reference model (Fixed, eps 0 at :202, true infinity in augment) returns - "always returns" is NOT proved;
     # (H-2cand) every row lists >= 2 candidates - the premise under which C01_lapjv_fixed_optimal is proved.  Where both
     # hold the theorem says the model's result is optimal: the extracted model is checked against that (a disagreement
     # would be a bug of extraction / harness, reported as a failure of this check).
@@ -1023,12 +1025,14 @@ def shrink_candidates(case):
 
 MANIFEST = {
     "level_text": (
-        "Machine-checked proofs (Coq 8.16, 50 theorems, all closed under the global context) about (a) the certificate "
+        "Machine-checked proofs (Coq 8.16, 52 theorems, all closed under the global context) about (a) the certificate "
         "checker cert_ok that is run, extracted, on the implementation's own (x, y, u, v): acceptance implies x is a "
         "minimum-cost perfect matching over listed pairs, y its inverse and (u, v) a dual certificate, for every n and every "
         "sparsity pattern; (b) a line-level executable Gallina model of lapjv.py + _lapjv.pyx with switches rt in {AsIs, Fixed}, "
         "eps in {2^-26, 0} over ext = Fin Z | +inf | -inf | NaN, compared bit for bit with the freshly built implementation; "
-        "the faithful (AsIs, 2^-26) model is refuted by kernel-evaluated witnesses (findings F1, F6); for the repaired "
+        "the faithful (AsIs, 2^-26, sentinel inf) model is refuted by kernel-evaluated witnesses (findings F1, F6, and F20: "
+        "augment's sentinel inf = sum(c) + 1 is too small - the model's rebuild of scan is empty where the real code "
+        "segfaults, C01_inf_sentinel_refuted); for the repaired "
         "(Fixed, eps 0) model, and for (Fixed, 2^-26) on cost grids coarser than 2^-26, it is PROVED for every input with a "
         "perfect matching that whenever the model returns, x and y are mutually inverse permutations over listed pairs "
         "(C01_lapjv_fixed_pm: all four phases - column reduction, reduction transfer, augmenting row reduction incl. -inf "
@@ -1037,6 +1041,14 @@ MANIFEST = {
         "C01_aug_dist_inv, price update C01_aug_price_slack, weak duality); (c) the tracker's read-back of the solver result "
         "is injective for every permutation, and the identity clause holds at the level of the assignment problem."),
     "level_note": (
+        "KNOWN FINDING F20 (inside the property's quantifier): memory safety of augment FAILS - `inf = np.sum(c) + 1` "
+        "(_lapjv.pyx:296) is not larger than every reduced cost once prices are negative; a rebuild of scan then finds no "
+        "column and the code reads p_scan[low] past `up` (SIGSEGV / garbage / hang; witness n = 4 with a unique perfect "
+        "matching through three pairs of cost 14 and 0 row-reduction passes, every B >= 14). Attribution: F20 iff the "
+        "faithful sentinel model gives no result on the input AND the same model with a true infinity (lapjv_ref) returns; a "
+        "crash or wrong answer on an input where the sentinel model does return is a VIOLATION. The check runs this class "
+        "(forced expensive pairs, displacement chains, k = 0 emphasised) fork-isolated on every run. In 40 000 such instances "
+        "the sentinel failed 241 times for the as-is model and never for the row-offset-repaired (Fixed) model. "
         "Not proved: that the Fixed model always returns (a rebuild of scan in augment is never empty - needs the adequacy of "
         "inf = sum(c) + 1; with eps 0 in the retry decision it is even false for the model's fuel, C01_lapjv_fixed_eps0_not_total); "
         "optimality for inputs with single-candidate rows (-inf prices): only the price-update core over InvE and the "
